@@ -94,17 +94,38 @@ func r21TruncDivBeforeRangeCheck(c *core.Ctx) {
 				}
 				num := ast.Unparen(bin.X)
 				var wantFalse, wantTrue []string // canonical comparison strings
-				ns := canon(num)
-				wantFalse = append(wantFalse, ns+"<0", "0>"+ns)
-				wantTrue = append(wantTrue, ns+">=0", "0<="+ns)
 				var parts []ast.Expr
-				if sub, ok := num.(*ast.BinaryExpr); ok && sub.Op == token.SUB {
-					a, b := canon(sub.X), canon(sub.Y)
-					wantFalse = append(wantFalse, a+"<"+b, b+">"+a)
-					wantTrue = append(wantTrue, a+">="+b, b+"<="+a)
-					parts = []ast.Expr{sub.X, sub.Y}
-				} else {
-					parts = []ast.Expr{num}
+				// the numerator and everything it is a plain copy of (dx := offX; offX := a - b)
+				cands := []ast.Expr{num}
+				for cur, hops := num, 0; hops < 6; hops++ {
+					id, isID := ast.Unparen(cur).(*ast.Ident)
+					if !isID {
+						break
+					}
+					obj := core.ObjOf(info, id)
+					if obj == nil {
+						break
+					}
+					def := singleDef(info, fn.Decl.Body, obj)
+					if def == nil {
+						break
+					}
+					def = stripConv(info, def)
+					cands = append(cands, def)
+					cur = def
+				}
+				for _, cand := range cands {
+					ns := canon(cand)
+					wantFalse = append(wantFalse, ns+"<0", "0>"+ns)
+					wantTrue = append(wantTrue, ns+">=0", "0<="+ns)
+					if sub, ok := ast.Unparen(cand).(*ast.BinaryExpr); ok && sub.Op == token.SUB {
+						a, b := canon(sub.X), canon(sub.Y)
+						wantFalse = append(wantFalse, a+"<"+b, b+">"+a)
+						wantTrue = append(wantTrue, a+">="+b, b+"<="+a)
+						parts = append(parts, sub.X, sub.Y)
+					} else {
+						parts = append(parts, cand)
+					}
 				}
 				stable := true
 				for _, pe := range parts {
